@@ -56,12 +56,13 @@ theorem serveStep_nil (cfg : Cfg) (B : Backend σ) (st : SState σ) (r : ReadRes
               exact ⟨c, rfl, by rw [hp]; rfl, rfl, _, rfl, rfl⟩
             · simp at h
           · simp at h
+          · simp at h
 
 /-- in IDLE mode the next reader result, whatever it is, ends the IDLE with exactly one completion tagged
 with the IDLE's tag (or, for STARTTLS answered by the reader, the reader's own reply) -/
 theorem serveStep_idle (cfg : Cfg) (B : Backend σ) (st : SState σ) (it : Bytes) (hm : st.mode = .idle it)
     (r : ReadRes) :
-    (∃ cls st', serveStep cfg B st r = ([⟨it, cls⟩], .cont st') ∧ st'.mode = .normal ∧ st'.errs = st.errs) ∨
+    (∃ cls st', serveStep cfg B st r = ([mkC cfg it cls], .cont st') ∧ st'.mode = .normal ∧ st'.errs = st.errs) ∨
     (∃ t, r = .tlsOk t ∨ r = .tlsNo t) := by
   unfold serveStep
   cases r with
@@ -74,7 +75,7 @@ theorem serveStep_idle (cfg : Cfg) (B : Backend σ) (st : SState σ) (it : Bytes
 the session is closed exactly when the counter reaches `maxErr` -/
 theorem serveStep_err (cfg : Cfg) (B : Backend σ) (st : SState σ) (hm : st.mode = .normal) (t : Bytes) :
     serveStep cfg B st (.err t) =
-      ([⟨t, .bad⟩], if st.errs + 1 ≥ cfg.maxErr then .stop .tooManyErrors else .cont { st with errs := st.errs + 1 }) := by
+      ([mkC cfg t .bad], if st.errs + 1 ≥ cfg.maxErr then .stop .tooManyErrors else .cont { st with errs := st.errs + 1 }) := by
   unfold serveStep
   rw [hm]
 
@@ -174,7 +175,7 @@ BAD, one for one, and the session goes on with the rest -/
 theorem serveAll_errs_below (cfg : Cfg) (B : Backend σ) (more : List ReadRes) (e : ReaderExit) :
     ∀ (tags : List Bytes) (st : SState σ), st.mode = .normal → st.errs + tags.length < cfg.maxErr →
       serveAll cfg B st (tags.map .err ++ more) e =
-        (tags.map (fun t => [⟨t, .bad⟩]) ++ (serveAll cfg B { st with errs := st.errs + tags.length } more e).1,
+        (tags.map (fun t => [mkC cfg t .bad]) ++ (serveAll cfg B { st with errs := st.errs + tags.length } more e).1,
          (serveAll cfg B { st with errs := st.errs + tags.length } more e).2) := by
   intro tags
   induction tags with
@@ -196,7 +197,7 @@ BAD, one for one, and then the session is closed — whatever else the client ha
 theorem serveAll_errs_close (cfg : Cfg) (B : Backend σ) (more : List ReadRes) (e : ReaderExit) :
     ∀ (tags : List Bytes) (st : SState σ), st.mode = .normal → tags ≠ [] → st.errs + tags.length = cfg.maxErr →
       serveAll cfg B st (tags.map .err ++ more) e =
-        (tags.map (fun t => [⟨t, .bad⟩]), .closed .tooManyErrors) := by
+        (tags.map (fun t => [mkC cfg t .bad]), .closed .tooManyErrors) := by
   intro tags
   induction tags with
   | nil => intro st _ h; exact absurd rfl h
@@ -226,6 +227,7 @@ theorem serveStep_cmd_resets (cfg : Cfg) (B : Backend σ) (hr : cfg.resetOnSucce
   · split at h
     · cases h
     · split at h <;> (cases h; rfl)
+    · cases h; rfl
     · cases h; rfl
 
 /-- … and what it does, and everything after it, does not depend on how many errors came before -/
